@@ -101,6 +101,27 @@ Proof.
   - apply ob_new_abs.
 Qed.
 
+Theorem offsets_nth_refines : forall k o, off_inv o -> exists x o',
+  offsets_nth k o = (x, o') /\
+  x = hd_error (ndrop k (off_abs o)) /\ off_abs o' = tl (ndrop k (off_abs o)) /\ off_inv o'.
+Proof.
+  intros k o Hi. destruct (r_nth _ _ _ offsets_refines_fwd k o Hi) as (x & o' & E & R).
+  exists x, o'. split; [|exact R]. cbn [offsets_iface i_nth] in E. inversion E. reflexivity.
+Qed.
+
+Theorem offsets_split_refines_full : forall k o, off_inv o ->
+  (k <= nlen (off_abs o) -> exists l r, offsets_split k o = Some (l, r) /\
+      off_abs l = ntake k (off_abs o) /\ off_abs r = ndrop k (off_abs o) /\
+      off_abs l ++ off_abs r = off_abs o /\ nlen (off_abs l) = k /\ off_inv l /\ off_inv r) /\
+  (nlen (off_abs o) < k -> offsets_split k o = None).
+Proof.
+  intros k o Hi. split.
+  - intros Hk. destruct (r_split_ok _ _ _ offsets_refines_split k o Hi Hk) as (l & r & E & Hl & Hr & Il & Ir).
+    exists l, r. split; [exact E|]. split; [exact Hl|]. split; [exact Hr|].
+    split; [rewrite Hl, Hr; apply ntake_ndrop|]. split; [rewrite Hl; apply nlen_ntake; exact Hk|]. split; assumption.
+  - apply (r_split_panic _ _ _ offsets_refines_split); exact Hi.
+Qed.
+
 (* the main theorem for Offsets, i.e. for Iter / IterMut up to the data access *)
 Theorem offsets_history : forall h dims,
   run_impl (offsets_iface false) h (offsets_new dims) = run_spec h (rm dims).
@@ -325,3 +346,18 @@ Section Lane.
     - apply N.ltb_ge in Ee. replace (ln_end s - ln_index s) with 0 by lia. cbn. auto.
   Qed.
 End Lane.
+
+(* Lane / LaneMut have no split_at: the theorem covers every split-free history *)
+Theorem lane_history : forall h ld start mutable, has_split h = false -> dsize ld < two64 ->
+  run_impl (lane_iface mutable ld start) h {| ln_index := 0; ln_end := dsize ld |} = run_spec h (lane_elems ld start).
+Proof.
+  intros h ld start mutable Hs Hsz.
+  assert (Habs : lane_elems ld start = ln_abs ld start {| ln_index := 0; ln_end := dsize ld |}).
+  { unfold lane_elems, ln_abs, range0. cbn [ln_index ln_end]. rewrite N.sub_0_r. reflexivity. }
+  rewrite Habs.
+  apply (history_refines_gen _ ln_inv (ln_abs ld start)).
+  - apply lane_refines_fwd.
+  - unfold ln_inv. cbn [ln_index ln_end]. lia.
+  - right. apply lane_refines_back.
+  - left. exact Hs.
+Qed.
